@@ -1,35 +1,36 @@
 ---------------------------- MODULE IntegrityGen ----------------------------
 (* GEN for C39: a random walk over PithosMC (TLC -simulate, PithosGen's state-aware  *)
 (* argument choice) builds a storage state; at GenDepth calls the program is printed *)
-(* together with NCases corruption cases chosen over the PHYSICAL PARTS of the       *)
-(* model state reached: each part of AllParts(S, Stack) is damaged with probability  *)
+(* together with NCases corruption cases per stack chosen over the PHYSICAL PARTS of *)
+(* the model state reached: each part of AllParts(S, stack) is damaged with probability *)
 (* CorrNum/CorrDen by a random applicable kind; the first case of every program      *)
 (* damages exactly one part (so sharers and non-sharers are told apart), the second  *)
 (* damages nothing (no intact object may be reported).  No expected results.         *)
 EXTENDS Integrity, PithosGen
 
-CONSTANTS Stack, NCases, CorrNum, CorrDen
+CONSTANTS NCases, CorrNum, CorrDen
 
-RandCorr(St) ==
-  LET P == AllParts(St, Stack)
+RandCorr(St, stack) ==
+  LET P == AllParts(St, stack)
       Q == {p \in P : RandomElement(1..CorrDen) <= CorrNum}
   IN {[store |-> p.store, c |-> p.c, kind |-> RandomElement(KindsFor(p))] : p \in Q}
-OneCorr(St) ==
-  LET P == AllParts(St, Stack) IN
+OneCorr(St, stack) ==
+  LET P == AllParts(St, stack) IN
   IF P = {} THEN {}
   ELSE LET p == RandomElement(P) IN {[store |-> p.store, c |-> p.c, kind |-> RandomElement(KindsFor(p))]}
-CaseAt(St, i) ==
-  [corr |-> SetToSeq(IF i = 1 THEN OneCorr(St) ELSE IF i = 2 THEN {} ELSE RandCorr(St)),
-   del |-> RandomElement(BOOLEAN)]
+CaseAt(St, stack, i) ==
+  [corr |-> SetToSeq(IF i = 1 THEN OneCorr(St, stack) ELSE IF i = 2 THEN {} ELSE RandCorr(St, stack)),
+   del |-> IF i <= 2 THEN i = 1 ELSE RandomElement(BOOLEAN)]
+CasesFor(St, stack) == [i \in 1..NCases |-> CaseAt(St, stack, i)]
 
 \* operation weights of the state-building walk: writes that create part structures dominate
 IOpW == <<"CreateBucket", "PutVersioning", "PutObject", "PutObject", "PutObject", "PutObject", "DeleteObject",
           "CopyObject", "CopyObject", "AppendObject", "AppendObject", "AppendObject", "CreateUpload", "CreateUpload",
-          "UploadPart", "UploadPart", "UploadPart", "UploadPartCopy", "CompleteUpload", "CompleteUpload">>
+          "UploadPart", "UploadPart", "UploadPart", "UploadPartCopy", "CompleteUpload", "CompleteUpload", "Transition">>
 IOpWSel == SelectSeq(IOpW, LAMBDA o : o \in Ops)
 IGenNext == Step(RandCall(RW(IOpWSel), S))
 
 IEmit == IF Len(hist) = GenDepth
-         THEN PrintT(ToJson([calls |-> hist, cases |-> [i \in 1..NCases |-> CaseAt(S, i)]]))
+         THEN PrintT(ToJson([calls |-> hist, cases |-> [fs |-> CasesFor(S, "fs"), classes |-> CasesFor(S, "classes")]]))
          ELSE TRUE
 =============================================================================
